@@ -18,7 +18,9 @@
   R8  token wiring on the server: each of the four create / update handlers passes the token of the spec it validated to
       _create_batch_update; the look-ups bind (token, user) / (batch_id, update_token) unchanged; the replayed answer of
       _create_batch_update returns the stored columns in the positions of the first answer; the handlers unpack and publish them under
-      the names the client reads; batch_updates is written by a plain INSERT
+      the names the client reads in EVERY response they build (first answer and the already-committed replays), seen through response-building
+      helpers (statement-level and expression-level inlining, dict literals and dict(...) calls); the commit handler publishes the start columns
+      of the update it commits under their own names; batch_updates is written by a plain INSERT
 Not decided: interleaving with a second client (InnoDB locking semantics).
 """
 from __future__ import annotations
@@ -249,7 +251,8 @@ def r5(ctx: Ctx, m: pf.Module) -> None:
 
 def r6(ctx: Ctx, m: pf.Module) -> None:
     cm = pf.load(CL)
-    sites: List[Tuple[str, str, ast.expr, Dict[str, int]]] = []
+    from engines import inline
+    mi, _il = inline.inline_functions(m, '_create_jobs')  # id arithmetic moved into a module-level helper is analysed in place
 
     def assign_value(mod: pf.Module, qual: str, target: str) -> ast.expr:
         fn = mod.func(qual)
@@ -263,8 +266,8 @@ def r6(ctx: Ctx, m: pf.Module) -> None:
     specs = [
         (cm, 'Job._submit', 'self._job_id', {'in_update_start_job_id': 1, 'self._job_id': 1}),
         (cm, 'JobGroup._submit', 'self._job_group_id', {'in_update_start_job_group_id': 1, 'self._job_group_id': 1}),
-        (m, '_create_jobs', 'job_id', {"spec['job_id']": 1, 'update_start_job_id': 1}),
-        (m, '_create_jobs', 'job_group_id', {'update_start_job_group_id': 1, 'in_update_job_group_id': 1}),
+        (mi, '_create_jobs', 'job_id', {"spec['job_id']": 1, 'update_start_job_id': 1}),
+        (mi, '_create_jobs', 'job_group_id', {'update_start_job_group_id': 1, 'in_update_job_group_id': 1}),
         (m, '_create_job_groups.insert', 'job_group_id', {'start_job_group_id': 1, "spec['job_group_id']": 1}),
         (m, '_create_job_groups.insert', 'parent_job_group_id', {'start_job_group_id': 1, "spec['in_update_parent_id']": 1}),
     ]
@@ -273,7 +276,7 @@ def r6(ctx: Ctx, m: pf.Module) -> None:
         got = lf.lin(v)
         ctx.check(got == lf.Lin(coef, -1), 'R6', f'{mod.rel}::{qual}::{target}', f'`{target} = {pf.nsrc(v)}` is not start + relative - 1: client and server would disagree on the absolute id', mod.path, v.lineno)
     # in-update parents: comprehension element
-    fn = m.func('_create_jobs')
+    fn = mi.func('_create_jobs')
     comp = [n for n in pf.walk_shallow(fn) if isinstance(n, ast.ListComp) and 'in_update_parent_ids' in pf.nsrc(n.generators[0].iter)]
     ctx.need(len(comp) == 1, '_create_jobs: in-update parent comprehension not found')
     tv = pf.nsrc(comp[0].generators[0].target)
@@ -429,6 +432,105 @@ ID_KEYS = ('update_id', 'start_job_group_id', 'start_job_id')
 ID_SOURCES = ('self._create_fast', 'self._update_fast', 'self._commit_update')
 
 
+RESPONSE_ANCHORS = {'_create_batch_update', '_create_batch', '_create_jobs', '_create_job_groups', '_commit_update', 'validate_batch', 'validate_batch_update',
+                    'validate_and_clean_jobs', 'validate_job_groups', 'json_response', 'json_request'}
+
+
+def _dict_items(d: ast.AST) -> Optional[List[Tuple[Optional[str], ast.expr]]]:
+    """(constant key, value) pairs of a dict literal or a dict(k=v, ...) call; None for anything else."""
+    if isinstance(d, ast.Dict):
+        return [(pf.const_str(k) if k is not None else None, v) for k, v in zip(d.keys, d.values)]
+    if isinstance(d, ast.Call) and isinstance(d.func, ast.Name) and d.func.id == 'dict' and not d.args and d.keywords:
+        return [(k.arg, k.value) for k in d.keywords]
+    return None
+
+
+def _strip_int(v: ast.AST) -> ast.AST:
+    while isinstance(v, ast.Call) and pf.dotted(v.func) == 'int' and len(v.args) == 1 and not v.keywords:
+        v = v.args[0]
+    return v
+
+
+def _builds_ids(f: ast.AST) -> bool:
+    return any((_dict_items(d) is not None and any(k in ID_KEYS for k, _ in _dict_items(d))) for d in ast.walk(f))  # type: ignore[union-attr]
+
+
+def _with_response_helpers_inlined(m: pf.Module, handler: str) -> Tuple[pf.FuncDef, List[str]]:
+    """The handler with the module-level helpers that (transitively) build the id-bearing response inlined: statement-level calls through
+    engines/inline.py, single-`return <expr>` helpers called inside an expression by parameter substitution.  The anchors of the rule
+    (_create_batch_update, the validators ...) are never inlined."""
+    import copy
+    from engines import inline
+    funcs = {f.name: f for f in m.tree.body if isinstance(f, (ast.FunctionDef, ast.AsyncFunctionDef))}
+    cands = {n for n, f in funcs.items() if not f.decorator_list and n not in RESPONSE_ANCHORS and n != handler}
+    keep = {n for n in cands if _builds_ids(funcs[n])}
+    changed = True
+    while changed:
+        changed = False
+        for n in cands - keep:
+            if any(isinstance(c, ast.Call) and isinstance(c.func, ast.Name) and c.func.id in keep for c in ast.walk(funcs[n])):
+                keep.add(n)
+                changed = True
+    used = {c.func.id for c in ast.walk(funcs[handler]) if isinstance(c, ast.Call) and isinstance(c.func, ast.Name) and c.func.id in keep} if handler in funcs else set()
+    if not used:
+        return m.func(handler), []
+    m2, il = inline.inline_functions(m, handler, exclude=tuple(set(funcs) - keep))
+    fn = m2.func(handler)
+    done = sorted({n for n, _ in il.inlined})
+
+    class _Expr(ast.NodeTransformer):
+        def __init__(self):
+            self.depth = 0
+
+        def visit_Call(self, node: ast.Call):
+            self.generic_visit(node)
+            if not (isinstance(node.func, ast.Name) and node.func.id in keep):
+                return node
+            h = funcs[node.func.id]
+            body = [s_ for s_ in h.body if not (isinstance(s_, ast.Expr) and isinstance(s_.value, ast.Constant) and isinstance(s_.value.value, str))]
+            a = h.args
+            if isinstance(h, ast.AsyncFunctionDef) or len(body) != 1 or not isinstance(body[0], ast.Return) or body[0].value is None or a.vararg or a.kwarg or a.posonlyargs \
+                    or any(isinstance(x, ast.Starred) for x in node.args) or any(k.arg is None for k in node.keywords) or self.depth >= 3:
+                return node
+            params = [x.arg for x in a.args] + [x.arg for x in a.kwonlyargs]
+            bound: Dict[str, ast.expr] = dict(zip([x.arg for x in a.args], node.args))
+            if len(node.args) > len(a.args):
+                return node
+            for k in node.keywords:
+                if k.arg in bound or k.arg not in params:
+                    return node
+                bound[k.arg] = k.value  # type: ignore[index]
+            defaults = dict(zip([x.arg for x in a.args][len(a.args) - len(a.defaults):], a.defaults))
+            defaults.update({x.arg: d_ for x, d_ in zip(a.kwonlyargs, a.kw_defaults) if d_ is not None})
+            for p_ in params:
+                if p_ not in bound:
+                    if p_ not in defaults:
+                        return node
+                    bound[p_] = defaults[p_]
+            # arguments are substituted textually: only side-effect-free ones
+            if not all(isinstance(v, (ast.Name, ast.Constant, ast.Subscript, ast.Attribute)) for v in bound.values()):
+                return node
+            expr = copy.deepcopy(body[0].value)
+            if any(isinstance(x, (ast.Lambda, ast.ListComp, ast.SetComp, ast.DictComp, ast.GeneratorExp, ast.NamedExpr)) for x in ast.walk(expr)):
+                return node
+
+            class _Sub(ast.NodeTransformer):
+                def visit_Name(self, n: ast.Name):
+                    if isinstance(n.ctx, ast.Load) and n.id in bound:
+                        return copy.deepcopy(bound[n.id])
+                    return n
+            out = ast.copy_location(_Sub().visit(expr), node)
+            ast.fix_missing_locations(out)
+            done.append(node.func.id)
+            self.depth += 1
+            out = self.visit(out) if isinstance(out, ast.Call) else self.generic_visit(out)
+            self.depth -= 1
+            return out
+
+    _Expr().visit(fn)
+    return fn, sorted(set(done))
+
+
 def _binding(fn: pf.FuncDef, e: sf.Embedded, st: N) -> Dict[str, ast.expr]:
     """column -> python expression for every `col = %s` conjunct of a statement's WHERE (positional parameters bound in order)."""
     params = sr.params_in_order(st)
@@ -464,22 +566,91 @@ def r8(ctx: Ctx, m: pf.Module) -> None:
             bcalls = [c for c in ast.walk(fn) if isinstance(c, ast.Call) and pf.dotted(c.func) == '_create_batch' and c.args]
             ctx.need(len(bcalls) == 1, f'{cons}: _create_batch call not recognised')
             ctx.check(pf.nsrc(bcalls[0].args[0]) == spec, 'R8', cons + '::batch spec argument', f'_create_batch receives `{pf.nsrc(bcalls[0].args[0])}`, not the validated `{spec}`', m.path, bcalls[0].lineno)
-        # the ids are unpacked and published under the names the client reads (by POSITION in the returned triple, not by local name)
-        tgs = [n.targets[0] for n in pf.walk_shallow(fn) if isinstance(n, ast.Assign) and any(x is ucalls[0] for x in ast.walk(n.value))]
+        # the ids are unpacked and published under the names the client reads (by POSITION in the returned triple, not by local name);
+        # response-building helpers (statement- and expression-level) are inlined first, so the dict is seen with the handler's own names
+        fn2, inl = _with_response_helpers_inlined(m, h)
+        ucalls2 = [c for c in ast.walk(fn2) if isinstance(c, ast.Call) and pf.dotted(c.func) == '_create_batch_update']
+        ctx.need(len(ucalls2) == 1, f'{cons}: _create_batch_update call not recognised after inlining {inl}')
+        tgs = [n.targets[0] for n in pf.walk_shallow(fn2) if isinstance(n, ast.Assign) and any(x is ucalls2[0] for x in ast.walk(n.value))]
         ctx.need(len(tgs) == 1 and isinstance(tgs[0], ast.Tuple) and len(tgs[0].elts) == 3 and all(isinstance(x, ast.Name) for x in tgs[0].elts),
                  f'{cons}: result of _create_batch_update is not unpacked into three names')
         pos = dict(zip(ID_KEYS, [x.id for x in tgs[0].elts]))
+        ctx.need(len(set(pos.values())) == 3, f'{cons}: result of _create_batch_update is unpacked into repeated names')
         bad = []
         nd = 0
-        for d in ast.walk(fn):
-            if isinstance(d, ast.Dict):
-                ks = [pf.const_str(k) if k is not None else None for k in d.keys]
-                if any(k in ID_KEYS for k in ks):
-                    nd += 1
-                    bad += [f"'{k}': {pf.nsrc(v)}" for k, v in zip(ks, d.values) if k in ID_KEYS and not (isinstance(v, ast.Name) and v.id == pos[k])]
+        for d in ast.walk(fn2):
+            items = _dict_items(d)
+            if items is None or not any(k in ID_KEYS for k, _ in items):
+                continue
+            nd += 1
+            for k, v in items:
+                if k not in ID_KEYS:
+                    continue
+                v = _strip_int(pf.expand_locals(fn2, v))
+                if isinstance(v, ast.Name) and v.id == pos[k]:
+                    continue
+                ctx.need(isinstance(v, ast.Name) and v.id in pos.values(), f"{cons}: response value '{k}': {pf.nsrc(v)} is not one of the unpacked ids")
+                bad.append(f"'{k}': {pf.nsrc(v)} (line {getattr(d, 'lineno', 0)})")
         ctx.need(nd >= 1, f'{cons}: response dict not found')
-        ctx.check(not bad, 'R8', cons + '::response keys', f'_create_batch_update returns (update_id, start_job_group_id, start_job_id), unpacked here into {list(pos.values())}, but the response publishes {bad}: '
-                  'job ids and job-group ids (or the update id) change places in the answer and the client numbers its jobs from the wrong start', m.path, fn.lineno)
+        ctx.check(not bad, 'R8', cons + '::response keys', f'_create_batch_update returns (update_id, start_job_group_id, start_job_id), unpacked here into {list(pos.values())}, but the response publishes {bad}'
+                  + (f' (helpers inlined: {inl})' if inl else '') + ': job ids and job-group ids (or the update id) change places in the answer - e.g. on the re-sent request that finds its update already '
+                  'committed - and the client numbers its jobs from the wrong start', m.path, fn.lineno, detail={'response dicts': nd, 'inlined': inl})
+
+    # ---- (e) the commit handler publishes the start ids of the update it committed, each under its own name ------------------------------------
+    fn = m.func('commit_update')
+    cons = f'{FE}::commit_update'
+    fn2, inl = _with_response_helpers_inlined(m, 'commit_update')
+    rows = {}
+    for n in pf.walk_shallow(fn2):
+        if isinstance(n, ast.Assign) and len(n.targets) == 1 and isinstance(n.targets[0], ast.Name):
+            v = n.value.value if isinstance(n.value, ast.Await) else n.value
+            if isinstance(v, ast.Call) and isinstance(v.func, ast.Attribute) and v.func.attr in ('select_and_fetchone', 'execute_and_fetchone') and v.args:
+                sql, _h, _how = sf._sql_of_expr(fn2, v.args[0])
+                if sql is None:
+                    continue
+                from engines.sqlast import parse_statements, SqlParseError
+                try:
+                    sts = parse_statements(sql)
+                except SqlParseError as e:
+                    raise AnalysisError(f'{cons}: SQL not parsed: {e}')
+                if len(sts) == 1 and sts[0].kind == 'select' and 'batch_updates' in [t.lower() for t in sf.table_names(sts[0].frm)]:
+                    rows[n.targets[0].id] = (sts[0], sr.args_tuple(fn2, v.args[1]) if len(v.args) > 1 else None)
+    ctx.need(len(rows) == 1, f'{cons}: read of the update row not recognised')
+    rec, (sel, args) = next(iter(rows.items()))
+    colmap = {}
+    for c, al in sel.cols:
+        if c.kind == 'col':
+            colmap[(al or c.parts[-1]).lower()] = c.parts[-1].lower()
+    # the row is the one of the update being committed
+    params = sr.params_in_order(sel)
+    pin = None
+    for c in sf.conjuncts(sel.where):
+        if c.kind == 'bin' and c.op == '=' and c.left.kind == 'col' and c.left.parts[-1].lower() == 'update_id' and c.right.kind == 'param' and args is not None:
+            i = [j for j, p_ in enumerate(params) if p_ is c.right]
+            if i and i[0] < len(args):
+                pin = args[i[0]]
+    ccalls = [c for c in ast.walk(fn2) if isinstance(c, ast.Call) and pf.dotted(c.func) == '_commit_update' and len(c.args) >= 3]
+    ctx.need(pin is not None and len(ccalls) == 1, f'{cons}: update_id binding of the row read / _commit_update call not recognised')
+    ctx.check(pf.nsrc(pin) == pf.nsrc(ccalls[0].args[2]), 'R8', cons + '::row of the committed update', f'the start ids are read from the update `{pf.nsrc(pin)}` but `{pf.nsrc(ccalls[0].args[2])}` is committed',
+              m.path, fn.lineno)
+    bad = []
+    nd = 0
+    for d in ast.walk(fn2):
+        items = _dict_items(d)
+        if items is None or not any(k in ID_KEYS for k, _ in items):
+            continue
+        nd += 1
+        for k, v in items:
+            if k not in ID_KEYS:
+                continue
+            v = _strip_int(pf.expand_locals(fn2, v))
+            ctx.need(isinstance(v, ast.Subscript) and isinstance(v.value, ast.Name) and v.value.id == rec and pf.const_str(v.slice) is not None and pf.const_str(v.slice).lower() in colmap,
+                     f"{cons}: response value '{k}': {pf.nsrc(v)} is not a column of the update row")
+            col = colmap[pf.const_str(v.slice).lower()]
+            if col != k:
+                bad.append(f"'{k}': batch_updates.{col}")
+    ctx.need(nd >= 1, f'{cons}: response dict not found')
+    ctx.check(not bad, 'R8', cons + '::response keys', f'the commit response publishes {bad}: the client of the bunched path (Batch._commit_update) numbers its jobs / job groups from the wrong start', m.path, fn.lineno)
 
     # ---- (b, c) the look-ups compare the stored key columns with the unmodified request token, and the insert stores the very same expressions ----
     for qual, table, keycols in (('_create_batch.insert', 'batches', {'token', 'user'}), ('_create_batch_update.update', 'batch_updates', {'batch_id', 'token'})):
@@ -589,7 +760,7 @@ def run(ctx: Ctx) -> None:
     ctx.rule('R4', 'repeated commit writes nothing: flag read FOR UPDATE inside the transaction, committed branch read-only, all writes under NOT committed', 4)
     ctx.rule('R5', 'job-group bunches only in order', 3)
     ctx.rule('R6', 'absolute id = start + relative - 1 at all client and server sites', 7)
-    ctx.rule('R8', 'token and id wiring: handlers pass the validated spec token, look-ups bind it unchanged, replay answer = first answer, ids unpacked / published / read under the same names', 27)
+    ctx.rule('R8', 'token and id wiring: handlers pass the validated spec token, look-ups bind it unchanged, replay answer = first answer, ids unpacked / published / read under the same names', 29)
     ctx.rule('R7', 'client tokens name one logical request: update token fresh per update (or cleared on every completing path), not re-drawn by retries; batch token fixed, creation requests once per object', 9)
     m = pf.load(FE)
     # the rules are independent: a shape one of them cannot analyse must not hide the verdicts of the others
